@@ -186,6 +186,12 @@ def run_s3(case):
             state["log_pos"] = len(fake.log)
 
         def on_event(a, phase, label, target, info):
+            if phase == "before" and label.startswith("s3:delete") and state.get("fail_delete_for") is not None and getattr(a, "prov", None) == state["fail_delete_for"]:
+                # the DELETE of this contender's release fails (and keeps failing through the retries): an orphan object with its id stays behind
+                from ..fakes3 import client_error
+
+                state["orphaned"] = True
+                raise client_error("InternalError", "DeleteObject", 500)
             if phase == "after":
                 state["current_actor_prov"] = getattr(a, "prov", None)
                 scan_log()
@@ -196,11 +202,20 @@ def run_s3(case):
             p = provs[i]
 
             def f():
+                last = None
+                for rnd in range(spec.get("rounds", 1)):
+                    last = one_round(rnd)
+                    if last[0] != "ok":
+                        break
+                return last
+
+            def one_round(rnd):
                 t0 = sch.now
                 state["attempting"].add(i)
                 if len(state["attempting"]) > 1:
                     state["contended"] = True
                 state["acquiring"].add(i)
+                log_mark = len(fake.log)
                 try:
                     ok = p.acquire()
                 except TimeoutError:
@@ -213,6 +228,10 @@ def run_s3(case):
                 if ok is not True:
                     return ("acquire-returned", ok)
                 scan_log()
+                # a lock is ACQUIRED by a conditional write of one's own: success without any landed PUT of this contender during
+                # this acquire() means a lease was adopted that nobody refreshed (and that others may already be taking over)
+                if not any(op_ == "put" and k_ == key and inf.get("ok") and inf["body"].decode().split("\n")[0] == p.lock_id for op_, k_, inf in fake.log[log_mark:]):
+                    state["bad_held"].append((i, "acquire() returned True although this contender landed no write on the lock object during the call"))
                 if [j for j in state["inside"] if j not in state["superseded"]]:
                     # (holders already superseded after a lapsed lease do not count: they will notice at their next is_held())
                     # how did i win? find its last landed PUT on the lock object
@@ -232,9 +251,16 @@ def run_s3(case):
                 if spec.get("renew"):
                     p._renew_once()
                 state["inside"].remove(i)
-                p.release()
+                if spec.get("fail_release") and rnd == 0:
+                    state["fail_delete_for"] = i
+                try:
+                    p.release()
+                except Exception:
+                    state["release_raised"] = True
+                finally:
+                    state["fail_delete_for"] = None
                 state["attempting"].discard(i)
-                if p.is_held():
+                if p.is_held() and not spec.get("fail_release"):
                     state["bad_held"].append((i, "is_held() True after release"))
                 return ("ok", sch.now - t0)
 
@@ -466,6 +492,7 @@ FIXED = [
     {"kind": "s3", "timeout": 8.0, "contenders": [{"renew": True}, {}], "extras": [{"kind": "age", "seconds": 120}]},
     {"kind": "s3", "timeout": 8.0, "contenders": [{"hold": 0.5}, {}], "extras": [{"kind": "age", "seconds": 120}, {"kind": "renew", "of": 0}, {"kind": "probe", "of": 0}]},
     {"kind": "s3", "timeout": 4.0, "contenders": [{"hold": 1000.0}, {}], "extras": [{"kind": "age", "seconds": 30}]},
+    {"kind": "s3", "timeout": 8.0, "contenders": [{"rounds": 2, "fail_release": True}, {}], "extras": [{"kind": "age", "seconds": 120}]},
 ]
 
 
@@ -530,7 +557,8 @@ def pct_case(draw):
         extras = []
         lock_age = draw(st.sampled_from([0, 0, 400, 86400]))
     else:
-        cont = [{"hold": draw(st.sampled_from([0.0, 0.5])), "renew": draw(st.booleans())} for _ in range(n)]
+        cont = [{"hold": draw(st.sampled_from([0.0, 0.5])), "renew": draw(st.booleans()), "rounds": draw(st.sampled_from([1, 1, 2])),
+                 "fail_release": draw(st.integers(0, 3)) == 0} for _ in range(n)]
         extras = []
         for _ in range(draw(st.integers(0, 3))):
             k = draw(st.sampled_from(["age", "renew", "probe"]))
